@@ -48,7 +48,7 @@ class C09(PropBase):
     extractors = ["trans"]
     rule = ("TC19 subtype 1/2 squitters over a stratified grid of east/north sign+magnitude fields (all boundaries 0,1,2,1022,1023, "
             "the exact 45-degree directions, random), all 2x512 vertical-rate codes, random other bits; DF::from_message and the "
-            "row after the frame (creating / after a DF11 / after another velocity squitter with different values, -U/-R on/off). Expected values: exact integer square root and an exact "
+            "row after the frame (creating / after a DF11 / after another velocity squitter with different values / right after an accepted BDS 5,0 reply, -U/-R on/off). Expected values: exact integer square root and an exact "
             "(60-digit) floor(atan2) computed here, and the Lean spec line. Non-trivial = both components present; distinct by frame.")
     assumptions = ["f64 sqrt/atan2/to_degrees are modelled: the model takes atan2deg as a parameter; the implementation's track is "
                    "compared with a 60-digit evaluation on every generated frame"]
@@ -118,7 +118,7 @@ class C09(PropBase):
         # the row: creating frame and later frame, both paths
         sub = list(range(0, len(frames), max(1, len(frames) // (3000 if tier == "quick" else 40000))))
         for (u, r) in gen.ALL_CFGS:
-            for first in (False, True, "tc19"):
+            for first in (False, True, "tc19", "bds50"):
                 addrs = [0x710000 + j for j in range(len(sub))]
                 fs = []
                 for j, i in enumerate(sub):
@@ -128,7 +128,15 @@ class C09(PropBase):
                 ops = ["reset", gen.cfg_op(use_update=u, relaxed=r), "case 0"]
                 prior = (lambda a: F.df11(5, a, 0)) if not first else \
                         (lambda a: F.df17(5, a, F.me_velocity(1, 0, 0, 0, 1, 301, 0, 417, 0, 1, 14, 0, 9)))
-                if first is not True:
+                if first == "bds50":
+                    # the row has just taken ground speed and track from a Comm-B BDS 5,0 reply (capability 5, register
+                    # advertised by a BDS 1,7 report): the velocity squitter that follows at once still sets its own values
+                    def prior50(a):
+                        return [F.df11(5, a, 0), F.df20(0, 0, 0, F.ac13_q1(1000), F.bds17({7, 9, 16, 24}), a),
+                                F.df20(0, 0, 0, F.ac13_q1(1000), F.bds50(40, 256, 150, 8, 150), a)]
+                    ops += gen.seg([f for a in addrs[:400] for f in prior50(a)])
+                    fs, addrs_used = fs[:400], addrs[:400]
+                elif first is not True:
                     ops += gen.seg([prior(a) for a in addrs])
                 ops += gen.seg(fs) + ["dump"]
                 impl, _, model = run.execute(ops, model=driver_ok)
@@ -136,12 +144,14 @@ class C09(PropBase):
                 ctx = {"use_update": u, "relaxed": r, "creating_frame": first}
                 self.corr(rep, impl, model, ctx)
                 rows = gen.parse_dump(impl)
-                for j, i in enumerate(sub):
+                for j, i in enumerate(sub[:len(fs)]):
                     d = rows.get(addrs[j], {})
                     got = (d.get("track"), d.get("gs"), d.get("vrate"))
+                    if first == "bds50" and (exp[i][0] == "-" or exp[i][1] == "-"):
+                        continue          # a squitter without velocity information may leave the Comm-B values
                     if not same(got, exp[i]):
                         self.fail(rep, f"row after velocity squitter {fs[j]} shows track/gs/vrate {got}, expected {exp[i]} ({ctx})",
-                                  {"ops": ["reset", gen.cfg_op(use_update=u, relaxed=r)] + ([] if first is True else gen.seg([prior(addrs[j])]))
+                                  {"ops": ["reset", gen.cfg_op(use_update=u, relaxed=r)] + ([] if first is True else gen.seg(prior50(addrs[j]) if first == "bds50" else [prior(addrs[j])]))
                                    + gen.seg([fs[j]]) + ["dump"], "frame": fs[j], "expected": list(exp[i]), "address": addrs[j], "context": ctx})
                         return
                     rep.nontriv((fs[j], u, r, first))
